@@ -275,11 +275,11 @@ class C20World(statuslib.World):
     def rname(self, t):
         return '%s:%s' % (GROUP, tname(t)) if t in self.group() else tname(t)
 
-    def _uptodate(self, item):
+    def _uptodate(self, item, t=None):
         if item[0] == 'res' and item[1] in self.group():
             from doit.task import result_dep
             return result_dep(self.rname(item[1]))
-        return super(C20World, self)._uptodate(item)
+        return super(C20World, self)._uptodate(item, t)
 
     def translate(self, argv):
         grp = self.group()
